@@ -1,5 +1,6 @@
 import Driver.Util
 import ZixModel.Model.Ring
+import ZixModel.Model.RingAlloc
 namespace Driver.C05
 open Zix.Ring
 
@@ -30,6 +31,21 @@ def step (s : St) (ws : List String) : St × String :=
         | some g => (s, s!"new=RING cap={capacity g}")
       else (s, "bad-op")
     | none => (s, "bad-op")
+  | ["newa", mask, n] =>
+    let idx := if mask == "-" then some [] else (mask.splitOn ",").mapM (·.toNat?)
+    match idx, n.toNat? with
+    | some ks, some n =>
+      if n ≤ 65536 then
+        let (evs, r) := Zix.RingAlloc.newA (fun k => ks.contains k) n
+        let o := fun (x : Option Nat) => toString (x.getD 0)
+        let fmtEv : Zix.RingAlloc.Ev → String
+          | .malloc (some sz) res => s!"m{sz}={o res}"
+          | .malloc none res => s!"mH={o res}"
+          | .free b => s!"f{b}"
+        let all := evs ++ Zix.RingAlloc.freeA r
+        (s, s!"new={if r.isSome then "RING" else "NULL"} | ev[{" ".intercalate (all.map fmtEv)}]")
+      else (s, "bad-op")
+    | _, _ => (s, "bad-op")
   | ["write", h] =>
     match bytesOfHex h with
     | some d => let (g', k) := write s.g d; let s' := { s with g := g' }; (s', s!"ret={k}" ++ wb s')
